@@ -275,6 +275,17 @@ func takeSnap(x *ops.Exec, outcomes []string, withCounts bool) *Snap {
 	if withCounts {
 		s.addCounts(x.Doc)
 	}
+	// documents of this history that were replaced as the current one (template bases, earlier renders) are still
+	// valid documents of the caller: their bytes are observed as well
+	for j, sd := range x.Side {
+		var sb []byte
+		var serr error
+		if p, _ := kit.Try(func() { sb, serr = sd.ToBytes() }); p != nil || serr != nil {
+			s.add(Item{Name: fmt.Sprintf("side%d:ToBytes", j), Kind: "outcome", Val: fmt.Sprintf("panic=%v err=%v", p, serr != nil)})
+			continue
+		}
+		s.addPackage(fmt.Sprintf("side%d:", j), sb)
+	}
 	return s
 }
 
